@@ -320,10 +320,12 @@ def step_plan(solid, env, p):
     eps = 4e-3 * scale
     sharp = 1.0
     if len(on) == 2:
-        if max(d for _, _, d in on) > 8 * eta:
-            return "skip", "near-corner"
-        # interior angle at the corner
         (a0, b0), (a1, b1) = data[on[0][1]], data[on[1][1]]
+        shared = [c for c in (a0, b0) if c in (a1, b1)]
+        # a corner only if the point IS the vertex (within 2 ulp): the code's corner zone (1e-5 in barycentric units) is
+        # of the size of float32 noise, and near — not at — an acute corner a correct edge normal fails any fixed ε
+        if not shared or math.dist(p, shared[0]) > 2e-7 * max([1.0] + [abs(a) for a in p]):
+            return "skip", "near-corner"
         u = (b0[0] - a0[0], b0[1] - a0[1]); w = (b1[0] - a1[0], b1[1] - a1[1])
         # the edges are listed head to tail: the interior angle α has cos α = −(u·w)/(|u||w|)
         cosang = -(u[0] * w[0] + u[1] * w[1]) / (math.hypot(*u) * math.hypot(*w))
@@ -335,7 +337,37 @@ def step_plan(solid, env, p):
         eps = min(eps, 0.4 * min(d for _, _, d in other))
     if eps * sharp < 10 * eta:
         return "skip", "crowded-or-sharp"
-    return "ok", eps, dict(leaf=lvs[gi].kind, corner=len(on) == 2)
+    # direction from the centre of the (convex) leaf through p: leaves the leaf at p
+    if kind == "interval":
+        ctr = [(data[0] + data[1]) / 2]
+    elif kind in ("circle", "sphere"):
+        ctr = list(data[0])
+    else:
+        vs = [a for a, _ in data]
+        ctr = [sum(c[0] for c in vs) / len(vs), sum(c[1] for c in vs) / len(vs)]
+    dn = math.dist(p, ctr)
+    if dn == 0:
+        return "skip", "degenerate"
+    return "ok", eps, dict(leaf=lvs[gi].kind, corner=len(on) == 2, u=[(a - b) / dn for a, b in zip(p, ctr)])
+
+
+def extended_hypotenuse(solid, env, p):
+    """known finding: p lies (within the coded tolerance) on the infinite line through corner_1 and corner_2 of a triangle
+    leaf but outside that triangle — `TriangleBoundary._contains` accepts it (no range check on `bary_x + bary_y ≈ 1`)"""
+    for lf in leaves(solid):
+        if lf.kind != "tri":
+            continue
+        o, c1, c2 = [[float(a) for a in pf.eval(env)] for pf in lf.pfs]
+        d1 = (c1[0] - o[0], c1[1] - o[1]); d2 = (c2[0] - o[0], c2[1] - o[1])
+        det = d1[0] * d2[1] - d1[1] * d2[0]
+        if det == 0:
+            continue
+        qx, qy = p[0] - o[0], p[1] - o[1]
+        s_ = (d2[1] * qx - d2[0] * qy) / det
+        t_ = (d1[0] * qy - d1[1] * qx) / det
+        if abs(s_ + t_ - 1) <= 1e-4 and (s_ < -1e-4 or t_ < -1e-4):
+            return True
+    return False
 
 
 def perp_plan(solid, env, p):
@@ -391,7 +423,7 @@ def evaluate(ctx, rep, cases, fixed=None):
         for r in rows:
             env = envs[r["env"]]
             pe = {var: [to_fr(a) for a in r["p"]]}
-            ent = dict(case=ci, row=r, a=len(lines))
+            ent = dict(case=ci, row=r, a=len(lines), ext=extended_hypotenuse(solid, env, r["p"]))
             head = f"{ATOL} {RTOL} {BATOL} {bt}"
             lines.append(f"normal {head} {env_tokens(pe)} {env_tokens(env)}")
             delta = Fr(4, 10 ** 6) * max([Fr(1)] + [abs(a) for a in pe[var]])
@@ -410,9 +442,14 @@ def evaluate(ctx, rep, cases, fixed=None):
                     nf = [to_fr(a) for a in nv]
                     out = [a + eps * b for a, b in zip(pe[var], nf)]
                     inn = [a - eps * b for a, b in zip(pe[var], nf)]
-                    ent["step"] = dict(eps=float(eps), info=pl[2], at=len(lines))
+                    ent["step"] = dict(eps=float(eps), info={k_: v_ for k_, v_ in pl[2].items() if k_ != "u"}, at=len(lines))
                     lines.append(f"contains {ATOL} {RTOL} {BATOL} {st} {env_tokens({var: out})} {env_tokens(env)}")
                     lines.append(f"contains {ATOL} {RTOL} {BATOL} {st} {env_tokens({var: inn})} {env_tokens(env)}")
+                    # guard: is p on the composite's boundary at all?  membership must flip across p along the ray from
+                    # the centre of the (convex) leaf — geometry computed by the harness, not by the implementation
+                    uf = [to_fr(a) for a in pl[2]["u"]]
+                    lines.append(f"contains {ATOL} {RTOL} {BATOL} {st} {env_tokens({var: [a + eps * b for a, b in zip(pe[var], uf)]})} {env_tokens(env)}")
+                    lines.append(f"contains {ATOL} {RTOL} {BATOL} {st} {env_tokens({var: [a - eps * b for a, b in zip(pe[var], uf)]})} {env_tokens(env)}")
                 else:
                     ent["skip"] = pl[1]
                 ent["perp"] = perp_plan(solid, env, r["p"])
@@ -460,29 +497,28 @@ def judge(rep, cs, solid, ent, replies):
         return
     nv = r["n"]
     # ---- property oracles (independent of the model of `normal`)
+    fk = "tri_boundary_extended_line" if ent.get("ext") else None      # known finding, see known_findings.d/C06.json
+    if fk:
+        rep.count("points-on-extended-hypotenuse-line")
     finite = all(math.isfinite(a) for a in nv)
     if not finite:
-        rep.fail(f"normal() returned a non-finite vector {nv} at a boundary point ({r['src']})", inp, detail=dict(normal=nv))
+        rep.fail(f"normal() returned a non-finite vector {nv} at a boundary point ({r['src']})", inp, detail=dict(normal=nv), finding=fk)
     else:
         ln = math.sqrt(sum(a * a for a in nv))
         if abs(ln - 1) > UNIT_TOL:
-            rep.fail(f"normal() returned {nv} of length {ln:.6g}, not a unit vector ({r['src']})", inp, detail=dict(normal=nv))
-        pp = ent.get("perp")
-        if pp is not None:
-            rep.count("perpendicularity-tested")
-            along = sum(a * b for a, b in zip(nv, pp["dir"]))
-            if pp["kind"] == "segment" and abs(along) > 5e-4:
-                rep.fail(f"normal {nv} at the interior point {r['p']} of a straight edge is not perpendicular to the edge "
-                         f"(component {along:.4g} along the edge direction {pp['dir']}; {r['src']})", inp, detail=dict(normal=nv, edge=pp["dir"]))
-            if pp["kind"] == "radial":
-                off = math.sqrt(sum((a - along * b) ** 2 for a, b in zip(nv, pp["dir"])))
-                if off > 2e-3:
-                    rep.fail(f"normal {nv} at the point {r['p']} of a circle line / sphere is not radial "
-                             f"(tangential component {off:.4g}; {r['src']})", inp, detail=dict(normal=nv, radial=pp["dir"]))
+            rep.fail(f"normal() returned {nv} of length {ln:.6g}, not a unit vector ({r['src']})", inp, detail=dict(normal=nv), finding=fk)
         st = ent["step"]
+        on_boundary = False
         if st is None:
             rep.count("step-skipped:" + ent.get("skip", "?"))
         else:
+            gu, gd = replies[st["at"] + 2].split()[0], replies[st["at"] + 3].split()[0]
+            on_boundary = {gu, gd} == {"0", "1"}
+            if not on_boundary:
+                # accepted by the boundary's membership test / returned by a sampler, but the exact membership does not
+                # change across the point: not a boundary point of the composite (membership / sampler matter: C05, C01)
+                rep.count("step-skipped:not-on-composite-boundary")
+        if on_boundary:
             o, i = replies[st["at"]].split()[0], replies[st["at"] + 1].split()[0]
             rep.count("step-tested")
             rep.count("step-tested:" + st["info"]["leaf"] + (":corner" if st["info"]["corner"] else ""))
@@ -494,7 +530,20 @@ def judge(rep, cs, solid, ent, replies):
                     what.append("p − εn is outside the domain")
                 rep.fail(f"normal {nv} at boundary point {r['p']} does not point outwards: {' and '.join(what)} "
                          f"(ε = {st['eps']:.3g}, exact membership; no other boundary piece within 2.5ε; {r['src']})",
-                         inp, detail=dict(normal=nv, eps=st["eps"], plus=o, minus=i))
+                         inp, detail=dict(normal=nv, eps=st["eps"], plus=o, minus=i), finding=fk)
+            pp = ent.get("perp")
+            if pp is not None:
+                rep.count("perpendicularity-tested")
+                along = sum(a * b for a, b in zip(nv, pp["dir"]))
+                if pp["kind"] == "segment" and abs(along) > 5e-4:
+                    rep.fail(f"normal {nv} at the interior point {r['p']} of a straight edge is not perpendicular to the edge "
+                             f"(component {along:.4g} along the edge direction {pp['dir']}; {r['src']})", inp,
+                             detail=dict(normal=nv, edge=pp["dir"]), finding=fk)
+                if pp["kind"] == "radial":
+                    off = math.sqrt(sum((a - along * b) ** 2 for a, b in zip(nv, pp["dir"])))
+                    if off > 2e-3:
+                        rep.fail(f"normal {nv} at the point {r['p']} of a circle line / sphere is not radial "
+                                 f"(tangential component {off:.4g}; {r['src']})", inp, detail=dict(normal=nv, radial=pp["dir"]), finding=fk)
     # ---- correspondence with the Lean model
     mv, _ = decode(replies[ent["a"]])
     stable = True
@@ -524,6 +573,18 @@ def run(ctx, rep, cases=None):
     if cases is None:
         cases = [make_case(ctx, i) for i in range(ctx.scale(110, 1200))]
     evaluate(ctx, rep, cases)
+    finding_probe(ctx, rep)
+
+
+def finding_probe(ctx, rep):
+    """known-finding stream: unit triangle ∪ disc around (2,0); the disc point (2,−1) lies on the infinite line through the
+    triangle's edge corner_1-corner_2 — `tri_boundary_extended_line`"""
+    from geomgen import PF, c
+    tri = Node("tri", "x", [PF([c(0), c(0)]), PF([c(1), c(0)]), PF([c(0), c(1)])])
+    cir = Node("circle", "x", [PF([c(2), c(0)]), PF([c(1)])])
+    dom = Node("union", None, [], [tri, cir])
+    case = dict(id=-1, mode="finding-probe", wrap="bdry", dom=dom.describe(), params=[], envs=[{}], n=1, seed=0, m=0)
+    evaluate(ctx, rep, [case], fixed=[[(["2", "-1"], 0)]])
 
 
 def replay(ctx, obj):
